@@ -11,8 +11,13 @@ import (
 
 // cmdLearn (maintenance tool, never run by a check): runs a property's check over a range of seeds with the current known
 // findings, groups the remaining violations by (strategy, primary feature) and prints ready-to-review known-finding entries.
+var learnTier = "quick"
+
 func cmdLearn(args []string) int {
 	prop := args[0]
+	if len(args) > 3 {
+		learnTier = args[3]
+	}
 	from, to := 1, 10
 	if len(args) > 2 {
 		fmt.Sscan(args[1], &from)
@@ -25,7 +30,7 @@ func cmdLearn(args []string) int {
 	}
 	groups := map[string]*ent{}
 	for s := from; s <= to; s++ {
-		r := NewReport(prop, "quick", uint64(s))
+		r := NewReport(prop, learnTier, uint64(s))
 		fn(r, loadKnown())
 		for _, v := range r.Violations {
 			sig, _ := v.Replay["learn_signature"].(map[string]string)
